@@ -710,7 +710,7 @@ func genScript(prop string, seed uint64, run int, big bool) (*Script, *rand.Rand
 				withRepeats = append(withRepeats, op)
 				if d := catalogue[op.K]; d != nil && d.exec && g.p(0.35) {
 					rep := op
-					rep.P = []string{"fresh-sol", "repeat-prev"}
+					rep.P = [][]string{{"fresh-sol", "repeat-prev"}, {"repeat-prev"}, {"junk-sol", "repeat-prev"}}[g.n(3)]
 					withRepeats = append(withRepeats, rep)
 				}
 			}
